@@ -24,6 +24,9 @@ struct H {
     long notified_total = 0, waits_ok = 0, instance_counter = 0;
     long unlocked_in_flight = 0, unlocked_epoch = 0;   // notify calls issued without the lock, possibly running on another vCPU right now
     long notify_in_flight = 0;          // upper bound of wake-ups by notify calls that have started but not returned
+    std::vector<char> proven;           // per actor: its current wait is certainly in the queue (somebody acquired the user lock after it began to wait,
+                                        // and releasing the lock and enqueuing is one step)
+    long n1_started = 0, n1_in_flight = 0, nall_started = 0, nall_in_flight = 0;   // notify_one / notify_all calls (any flavour)
     std::set<std::string> labels;
     bool nt = false;
 
@@ -31,6 +34,7 @@ struct H {
         if (use_spin) spl.lock(); else if (mtx.lock() != 0) C.L.ctl.violation("user mutex lock failed");
         if (holder != -1) C.L.ctl.violation("two actors hold the user lock");
         holder = id;
+        for (size_t j = 0; j < waiting.size(); j++) if ((int)j != id && waiting[j]) proven[j] = 1;
     }
     void L_unlock(int id) { if (holder != id) C.L.ctl.violation("unlock by non-holder (harness)"); holder = -1; if (use_spin) spl.unlock(); else mtx.unlock(); }
     bool L_held_by_me() { return use_spin ? spl.locked() : mtx.get_owner() == photon::CURRENT; }
@@ -45,7 +49,7 @@ struct H {
             long tmo = r.at(1);
             L_lock(id);
             long inst = ++instance_counter;
-            waiting[id] = 1; wait_instance[id] = inst; qstate[id] = 0;
+            waiting[id] = 1; wait_instance[id] = inst; qstate[id] = 0; proven[id] = 0;
             deadline[id] = tmo < 0 ? 0 : photon::now + (uint64_t)std::max<long>(tmo, 0);
             if (tmo == 0) deadline[id] = 1;    // already expired
             C.st[id].phase = "cv.wait"; C.st[id].phase_arg = tmo;
@@ -57,7 +61,7 @@ struct H {
             if (!L_held_by_me()) ctl.violation("actor" + std::to_string(id) + ": cv.wait returned without holding the lock");
             if (holder != -1) ctl.violation("actor" + std::to_string(id) + ": cv.wait returned while actor" + std::to_string(holder) + " holds the lock");
             holder = id;
-            waiting[id] = 0;
+            waiting[id] = 0; proven[id] = 0;
             if (ret == 0) {
                 waits_ok++;
                 if (waits_ok > notified_total + notify_in_flight) ctl.violation("actor" + std::to_string(id) + ": cv.wait returned 0 but fewer waiters were notified (" + std::to_string(notified_total) + ") than have returned 0 (" + std::to_string(waits_ok) + ")");
@@ -94,9 +98,21 @@ struct H {
                 }
             };
             if (!all) {
+                // untimed waiters that are certainly queued and not yet dequeued by anybody, at the start of this call
+                std::vector<int> settled;
+                for (int j = 0; j < C.nactors(); j++) if (waiting[j] && proven[j] && deadline[j] == 0 && qstate[j] == 0) settled.push_back(j);
+                long others_before = n1_in_flight, started0 = ++n1_started, nall0 = nall_started; bool all_overlap = nall_in_flight > 0;
+                n1_in_flight++;
                 notify_in_flight += 1;
                 photon::thread* t = cv.notify_one();
                 notify_in_flight -= 1;
+                n1_in_flight--;
+                long competitors = others_before + (n1_started - started0);    // notify_one calls that overlapped this one
+                if (nall_started != nall0) all_overlap = true;
+                if (!t && !all_overlap && (long)settled.size() > competitors)
+                    ctl.violation("notify_one() returned nobody although " + std::to_string(settled.size()) + " untimed waiter(s) were certainly queued when it started (first: actor" + std::to_string(settled[0]) +
+                                  ") and only " + std::to_string(competitors) + " other notify_one call(s) overlapped it");
+                if (settled.size() >= 2 && competitors >= 1) { nt = true; labels.insert("two_notify_one_calls_raced_over_two_waiters"); }
                 classify();
                 if (t) notified_total++;
                 if (locked) {
@@ -115,7 +131,9 @@ struct H {
                 }
             } else {
                 notify_in_flight += C.nactors();
+                nall_started++; nall_in_flight++;
                 int n = cv.notify_all();
+                nall_in_flight--;
                 notify_in_flight -= C.nactors();
                 classify();
                 if (n < 0 || n > C.nactors()) ctl.violation("notify_all() returned " + std::to_string(n));
@@ -144,7 +162,7 @@ Outcome run_case(const Case& c) {
     h.use_spin = c.cfg.at(5) != 0;
     h.C.setup(c, [&](int id, const std::vector<long>& r) { h.run_op(id, r); });
     int n = h.C.nactors();
-    h.waiting.assign(n, 0); h.wait_instance.assign(n, 0); h.deadline.assign(n, 0); h.must_wake.assign(n, 0); h.qstate.assign(n, 0);
+    h.waiting.assign(n, 0); h.wait_instance.assign(n, 0); h.deadline.assign(n, 0); h.must_wake.assign(n, 0); h.qstate.assign(n, 0); h.proven.assign(n, 0);
     auto& ctl = h.C.L.ctl;
     ctl.on_quiescence = [&]() {
         for (int j = 0; j < n; j++) {
@@ -178,6 +196,30 @@ rc::Gen<Case> gen_case(const vf::Options&) {
         Case c;
         long na = gen_common(c, 2, 5, 0);
         c.cfg.push_back(*vf::range(0, 1));
+        if (c.cfg[0] >= 2 && *vf::range(0, 3) == 0) {
+            // family "notifiers race": 2-3 untimed waiters (plus, sometimes, one about to time out at the head), then two
+            // notify_one calls from different vCPUs at nearly the same step, under a dense schedule
+            c.S("actor").clear();
+            long nv = c.cfg[0], nw = *vf::range(2, 3);
+            for (long i = 0; i < nw + 2; i++) c.S("actor").push_back({i < nw ? *vf::range(0, nv - 1) : (i - nw) % nv, 0});
+            long head_tmo = *rc::gen::weightedOneOf<long>({{2, rc::gen::just<long>(-1)}, {2, vf::range(150, 700)}});
+            for (long i = 0; i < nw; i++) {
+                auto& prog = c.S("a" + std::to_string(i));
+                if (i) prog.push_back({OP_SLEEP, i * 20});
+                prog.push_back({OP_WAITCV, i == 0 ? head_tmo : -1});
+            }
+            long t0 = *vf::range(100, 700);
+            for (long k = 0; k < 2; k++) {
+                auto& prog = c.S("a" + std::to_string(nw + k));
+                prog.push_back({OP_SLEEP, t0 + *vf::range(0, 6)});
+                prog.push_back({OP_NOTIFY_ONE, *rc::gen::weightedOneOf<long>({{1, rc::gen::just<long>(1)}, {2, rc::gen::just<long>(0)}})});
+                if (*vf::range(0, 1)) prog.push_back({OP_NOTIFY_ONE, *vf::range(0, 1)});
+                prog.push_back({OP_SLEEP, 3000});
+                prog.push_back({OP_NOTIFY_ALL, 1});          // nobody stays behind
+            }
+            c.S("sched") = *gen_schedule(120);
+            return c;
+        }
         for (long i = 0; i < na; i++) {
             long n = *vf::range(1, 4);
             auto& prog = c.S("a" + std::to_string(i));
